@@ -173,13 +173,13 @@ func argsets(all []string, maxArgs int) [][]string {
 const featCondAcc = "condition-slot-accessor"
 
 // baseOf picks the initargs the instances of class x are made with where the
-// initialisation itself is not the subject: the first subset that exercises no
-// construct with a listed finding (the empty one if there is none).
+// initialisation itself is not the subject: the first subset that does not
+// supply two initargs of one slot (the empty one qualifies).
 func baseOf(m *model, c *Case, x int) (base []string, baseState map[string]string, baseFeats []string) {
 	all := m.initargs(x)
 	for _, as := range argsets(all, c.MaxArgs) {
 		state, feats := m.instance(x, as, c.Universe, all)
-		if baseState == nil || (0 < len(baseFeats) && len(feats) == 0) {
+		if baseState == nil || (hasOpen(baseFeats) && !hasOpen(feats)) {
 			base, baseState, baseFeats = as, state, feats
 		}
 	}
@@ -388,7 +388,7 @@ func buildItems(m *model, c *Case, final bool) []item {
 			if baseState[a.slot] == missing {
 				continue
 			}
-			items = append(items, item{kind: "reader-unbound", class: x, wantErr: true, feats: append(append([]string{}, accFeats...), featReaderUnbound),
+			items = append(items, item{kind: "reader-unbound", class: x, wantErr: true, errIsA: "unbound-slot", feats: append(append([]string{}, accFeats...), featReaderUnbound),
 				src:  fmt.Sprintf("(let ((i %s)) (slot-makunbound i '%s) (%s i))", mk, a.slot, a.name),
 				subs: []sub{{kind: "reader-unbound", what: fmt.Sprintf("reader of c%d.%s on <c%d> after slot-makunbound", a.class, a.slot, x)}}})
 			break
@@ -570,20 +570,27 @@ func (rn *run) fail(sig, perm string, format string, a ...any) {
 	}
 }
 
-// sigOf names the failing construct. An evaluation that exercises a construct
-// with a listed finding (feats) is attributed to that construct whatever is
-// observed to be wrong, because which of several wrong outcomes shows up
-// there depends on Go map iteration order inside slip.
-func sigOf(obs, fail, when string, feats []string) string {
-	// constructs exercised by the evaluation itself first, then those that
-	// concern the whole class
-	for _, f := range []string{"shared-initarg", "two-initargs-one-slot", featCondAcc, featInheritedDefault,
-		featSharedInherited, featSharedReset, featReaderUnbound, featChangeInherited, featChangeInitform} {
-		for _, have := range feats {
-			if have == f {
-				return "construct=" + f
-			}
+// openFeat is the one construct with an open finding: two initargs of the
+// same slot supplied together make make-instance signal "Duplicate initarg"
+// (pinned by slip's own tests) where ANSI lets the leftmost one win.
+const openFeat = "two-initargs-one-slot"
+
+func hasOpen(feats []string) bool {
+	for _, f := range feats {
+		if f == openFeat {
+			return true
 		}
+	}
+	return false
+}
+
+// sigOf names the failing construct. Only the Duplicate-initarg error of an
+// evaluation that supplies two initargs of one slot is attributed to the
+// listed finding; every other outcome of such an evaluation is judged like
+// any other.
+func sigOf(obs, fail, when string, feats []string) string {
+	if fail == "duplicate-initarg" && hasOpen(feats) {
+		return "construct=" + openFeat
 	}
 	return fmt.Sprintf("obs=%s fail=%s when=%s", obs, fail, when)
 }
@@ -591,6 +598,9 @@ func sigOf(obs, fail, when string, feats []string) string {
 func errKind(e *sl.Err) string {
 	if e.Internal {
 		return "internal-fault"
+	}
+	if strings.Contains(e.Msg, "Duplicate initarg") {
+		return "duplicate-initarg"
 	}
 	return "error"
 }
@@ -758,7 +768,11 @@ func exec(x *fw.Ctx, c Case) {
 	}
 	for _, it := range append(append([]item{}, items0...), items1...) {
 		for _, f := range it.feats {
-			x.Cover("dirty:" + f)
+			if f == openFeat {
+				x.Cover("dirty:" + f)
+			} else {
+				x.Cover("exercised:" + f)
+			}
 		}
 	}
 	for _, perm := range perms {
